@@ -11,6 +11,9 @@
    The text of an inexact or complex number is NOT evaluated (that needs real arithmetic): such a
    token becomes an opaque "num" node and MatchText only requires the shape of the text to agree with
    the datum (sign, infinity / NaN spelling, presence of a decimal point or exponent, trailing i).
+   Bare tokens that are neither an R7RS number nor an R7RS identifier, or that are a number only when case
+   is ignored, become "odd" nodes: the specification does not say what they denote and MatchText accepts them
+   for a symbol of the same spelling (what the implementation's own readers make of them is judged separately).
    Write is an abstract writer (labels for shared or for cyclic nodes) used to model check Read. *)
 EXTENDS Datum
 
@@ -90,13 +93,14 @@ Imag(s, i) ==
               ELSE LET u == UReal(s, i + 1) IN IF u = 0 THEN i + 1 ELSE u
      IN j = Len(s) /\ s[j] = 105
 IsRealTok(s) == Len(s) >= 1 /\ Real(s, 1) = Len(s) + 1
-IsNumber(s0) ==
-  LET s == LowerSeq(s0) e == IF Len(s) >= 1 THEN Real(s, 1) ELSE 0 IN
+IsNumberLC(s) ==                       \* s in lower case
+  LET e == IF Len(s) >= 1 THEN Real(s, 1) ELSE 0 IN
   /\ Len(s) >= 1
   /\ \/ e = Len(s) + 1
      \/ (e > 1 /\ e <= Len(s) /\ s[e] = 64 /\ Real(s, e + 1) = Len(s) + 1)        \* polar
      \/ (e > 1 /\ e <= Len(s) /\ Imag(s, e))
      \/ Imag(s, 1)
+IsNumber(s) == IsNumberLC(LowerSeq(s))        \* R7RS 2.1: case is not significant in numbers
 
 SpecialInitial == {33, 36, 37, 38, 42, 47, 58, 60, 61, 62, 63, 94, 95, 126}      \* ! $ % & * / : < = > ? ^ _ ~
 IsLetter(c) == c \in 65..90 \/ c \in 97..122
@@ -211,6 +215,7 @@ AtomNodes(tk) ==
      ELSE IF Len(s) >= 3 /\ Lower(s[2]) = 120 /\ AllDigits(Sub(s, 3, Len(s)), 16) THEN      \* #xHH
         <<Node("int", <<>>, IntPayload(FALSE, Magnitude(Sub(s, 3, Len(s)), 16)))>>
      ELSE <<Bad>>
+  ELSE IF IsNumber(s) /\ ~IsNumberLC(s) THEN <<Node("odd", <<>>, s)>>   \* a number only if case is ignored (+I, +Inf.0): not judged
   ELSE IF IsNumber(s) THEN
      LET neg == s[1] = 45
          b == IF IsSign(s[1]) THEN Sub(s, 2, Len(s)) ELSE s
